@@ -874,7 +874,13 @@ pub fn run_property(def: &PropertyDef, tier: Tier, seed: u64, only_sub: Option<&
     let mut regress_n = 0u64;
     let mut violation_lines: Vec<String> = vec![];
     let mut regress_known: BTreeMap<String, (u64, String)> = BTreeMap::new();
+    // VERIF_SKIP_REGRESS=1 (analysis only): see whether generation alone finds what a committed
+    // reproducer would report first
+    let skip_regress = std::env::var("VERIF_SKIP_REGRESS").is_ok();
     for p in regress_files(def.id) {
+        if skip_regress {
+            break;
+        }
         regress_n += 1;
         match replay_file(def, &ctx.known, &p) {
             ReplayOutcome::Pass => {}
